@@ -48,6 +48,12 @@ claimed = {
  "C20": dict(text="Deductive proof that validateFriProofShape establishes plonky2's validate_fri_proof_shape predicate (cap sizes, number of evaluation proofs, leaf lengths per oracle incl. salt, sibling counts per tree and per step via the running arity sum, evaluations per step = arity, final-polynomial length), that VerifyFriProof additionally enforces the number of query rounds and query indices, that Merkle checks refuse caps other than 16 entries / 4 cap bits, that query rounds refuse arities other than 4, and that the FRI instance lists exactly plonky2's oracles and polynomial ranges; index-out-of-range in the remaining code is a refusal (Go panic).",
              note=TRUST + " Not decided by this technique: rejection of over-long opening lists and caps beyond the checked sizes (no explicit check exists; rejection is cryptographic). The PLONK-side index checks (partial products) are not yet under contract.",
              technique="contracts on plain Go shape checks + quantified loop invariants + SMT", design="§4 C20"),
+ "C16": dict(text="Deductive proof (SOUND and COMPLETE) on the real plonk.go: evalL0 is the first Lagrange polynomial, checkPartialProducts emits exactly the chunked partial-product relation (ragged last chunk included), evalVanishingPoly combines the boundary terms, the permutation chunks and the gate constraints by the alpha powers (reduceWithPowers = Horner), and PlonkChip.Verify accepts exactly when vanishing(zeta) equals Z_H(zeta) times the quotient recombined from its chunks; results are canonical GF(p^2) values.",
+             note=TRUST + " The gate constraint vector is used through the thin contract of EvaluateGateConstraints (length and canonicity only; the gate formulas are C15). In COMPLETE mode the function's own AssertIsEqual calls are the acceptance premise (flag acceptance-asserts).",
+             technique="contracts + VC generation over go/ssa + SMT; recursive GF(p^2) specifications", design="§4 C16"),
+ "C18": dict(text="Deductive proof on the real GateInstanceFromId, its regexp table and the deserialize* handlers, with the code's patterns translated to SMT-LIB regular languages: for each of the 14 identifier families plonky2 emits for supported gates (symbolic decimal parameters) the call returns, for every enumerated map iteration order, the gate type named with exactly the stated parameters and does not panic; for 11 families of identifiers of unimplemented gates (lookup, lookup table, the u32 crate gates, comparison, range check, and Exponentiation/RandomAccess/CosetInterpolation with D != 2) every path panics.",
+             note=TRUST + " Models assumed: regexp (RE2 subset -> RegLan; FindStringSubmatch = leftmost match, decided structurally for identifiers that are concatenations of literals and parameters, otherwise any decomposition), strconv.Atoi/ParseUint on digit strings, strings.Split/TrimSpace uninterpreted (the weight list premise idlist says every trimmed piece is a decimal below 2^64; parsed weight values are not part of the statement). Iteration orders: insertion order and its reversal (quick), all 14 rotations and the reversal (thorough); any order visits a subset of the non-matching keys before the matching one. Parameters are bounded by 2^63 (larger values are refused by Atoi, not misbound). The identifier families are those of plonky2 at the revision the repository vendors (crypto/plonky2_u32) and of plonky2's Debug derive; hiding-refusal in ReadCommonCircuitData is part of C19's contract of that function.",
+             technique="contracts + VC generation over go/ssa + SMT strings/regular languages (z3, cvc5 --strings-exp) + structural regex walk", design="§4 C18"),
 }
 
 titles = {}
@@ -55,12 +61,6 @@ for l in open('/verif/properties.jsonl'):
     p = json.loads(l); titles[p['id']] = p['title']
 
 pending_reason = {
- "C16": dict(text="Deductive proof (SOUND and COMPLETE) on the real plonk.go: evalL0 is the first Lagrange polynomial, checkPartialProducts emits exactly the chunked partial-product relation (ragged last chunk included), evalVanishingPoly combines the boundary terms, the permutation chunks and the gate constraints by the alpha powers (reduceWithPowers = Horner), and PlonkChip.Verify accepts exactly when vanishing(zeta) equals Z_H(zeta) times the quotient recombined from its chunks; results are canonical GF(p^2) values.",
-             note=TRUST + " The gate constraint vector is used through the thin contract of EvaluateGateConstraints (length and canonicity only; the gate formulas are C15). In COMPLETE mode the function's own AssertIsEqual calls are the acceptance premise (flag acceptance-asserts).",
-             technique="contracts + VC generation over go/ssa + SMT; recursive GF(p^2) specifications", design="§4 C16"),
- "C18": dict(text="Deductive proof on the real GateInstanceFromId, its regexp table and the deserialize* handlers, with the code's patterns translated to SMT-LIB regular languages: for each of the 14 identifier families plonky2 emits for supported gates (symbolic decimal parameters) the call returns, for every enumerated map iteration order, the gate type named with exactly the stated parameters and does not panic; for 11 families of identifiers of unimplemented gates (lookup, lookup table, the u32 crate gates, comparison, range check, and Exponentiation/RandomAccess/CosetInterpolation with D != 2) every path panics.",
-             note=TRUST + " Models assumed: regexp (RE2 subset -> RegLan; FindStringSubmatch = leftmost match, decided structurally for identifiers that are concatenations of literals and parameters, otherwise any decomposition), strconv.Atoi/ParseUint on digit strings, strings.Split/TrimSpace uninterpreted (the weight list premise idlist says every trimmed piece is a decimal below 2^64; parsed weight values are not part of the statement). Iteration orders: insertion order and its reversal (quick), all 14 rotations and the reversal (thorough); any order visits a subset of the non-matching keys before the matching one. Parameters are bounded by 2^63 (larger values are refused by Atoi, not misbound). The identifier families are those of plonky2 at the revision the repository vendors (crypto/plonky2_u32) and of plonky2's Debug derive; hiding-refusal in ReadCommonCircuitData is part of C19's contract of that function.",
-             technique="contracts + VC generation over go/ssa + SMT strings/regular languages (z3, cvc5 --strings-exp) + structural regex walk", design="§4 C18"),
  # filled in / removed as checks are built; every unclaimed property must have a reason
 }
 
